@@ -314,3 +314,64 @@ func vhC29SpecialRequest() {
 		}
 	}
 }
+
+// vhC29ParsedRequest: a request header that was *read from the wire* (three to
+// five field lines drawn from Cookie / X-A / X-B lines in any order), then one
+// call that touches another name (reading or setting a cookie, PeekKeys,
+// deleting X-B, adding X-B): the values under X-A, and their order, are what
+// the wire carried — directly and after writing the header and reading it back.
+var c29WireLines = [...]string{"Cookie: c=1", "X-A: 1", "X-A: 2", "X-A: 3", "X-B: 9", "Cookie: d=2", "X-A: 4"}
+
+func vhC29ParsedRequest() {
+	k := vLen("lines", 3, vParam("lines", 5))
+	head := "GET / HTTP/1.1\r\nHost: a\r\n"
+	var wantA []string
+	for i := 0; i < k; i++ {
+		l := c29WireLines[vChoose("line", len(c29WireLines))]
+		head += l + "\r\n"
+		if l[:4] == "X-A:" {
+			wantA = append(wantA, l[5:])
+		}
+	}
+	head += "\r\n"
+	var h RequestHeader
+	if err := h.Read(bufio.NewReader(bytes.NewReader([]byte(head)))); err != nil {
+		vAssert("head-parses", false)
+		return
+	}
+	switch vChoose("touch", 7) {
+	case 0:
+	case 1:
+		h.Cookie("c")
+	case 2:
+		h.PeekKeys()
+	case 3:
+		h.Set("Cookie", "z=9")
+	case 4:
+		h.Del("X-B")
+	case 5:
+		h.Add("X-B", "8")
+	case 6:
+		h.SetCookie("n", "v")
+	}
+	same := func(h *RequestHeader) bool {
+		got := h.PeekAll("X-A")
+		if len(got) != len(wantA) {
+			return false
+		}
+		for i := range got {
+			if string(got[i]) != wantA[i] {
+				return false
+			}
+		}
+		return true
+	}
+	vAssert("other-names-keep-their-values-and-order", same(&h))
+	var buf bytes.Buffer
+	bw := bufio.NewWriter(&buf)
+	h.Write(bw) //nolint:errcheck
+	bw.Flush()  //nolint:errcheck
+	var back RequestHeader
+	err := back.Read(bufio.NewReader(bytes.NewReader(buf.Bytes())))
+	vAssert("read-back-keeps-values-and-order", err == nil && same(&back))
+}
